@@ -19,6 +19,11 @@ from contracts import axioms as ax
 P = "C13"
 
 
+def _arr(ctx, xs):
+    a = np.array(xs, dtype=object)
+    return a if ctx.mode == "sym" else a.astype(float)
+
+
 def _umodel(ctx):
     """a user-defined model whose normalised correlation `cor` is an uninterpreted function:
     obligations proved with it hold for every model class"""
@@ -325,3 +330,50 @@ def sphere_rotation(ctx):
     ctx.ensure("rotated-chord^2=chord^2", ctx.eq(sum(x * x for x in qd), sum(x * x for x in d)))
     qp = Q @ p
     ctx.ensure("rotated-points-stay-on-the-sphere", ctx.eq(sum(qp[i, 0] * qp[i, 0] for i in range(3)), R * R))
+
+
+@contract(P, "Krige.set_condition[fit_variogram,latlon]/great-circle-variogram-in-the-model's-length-unit",
+          params={"geo": ["radian", "degree", "km", "arbitrary"]},
+          functions=["krige/base.py:Krige.set_condition"], bounded="3 conditioning points, geo_scale in the four named units")
+def krige_fit_geo_scale(ctx, geo):
+    """Krige(..., fit_variogram=True) on a lat-lon model estimates the empirical variogram of the
+    conditioning data itself: the great-circle bins must be in the unit of the model's length scale
+    (geo_scale), otherwise the fitted length scale is off by the unit factor"""
+    import gstools.krige.base as kb
+    gsc = {"radian": 1.0, "degree": gs.DEGREE_SCALE, "km": gs.KM_SCALE, "arbitrary": 2.5}[geo]
+    vals = [ctx.real("v%d" % i, lo=-2, hi=2) for i in range(3)]
+    log, flog = [], []
+
+    class FitG(gs.Gaussian):
+        def fit_variogram(self, x_data, y_data, anis=True, sill=None, **kw):
+            flog.append((x_data, y_data, sill))
+            return {}, None
+
+    def ghost(*a, **kw):
+        log.append((a, kw))
+        return np.array([0.5, 1.0]), np.array([0.3, 0.6])
+
+    model = FitG(latlon=True, geo_scale=gsc, var=1.0, len_scale=gsc * 0.3)
+    cpos = [[10.0, 20.0, -35.0], [5.0, 170.0, -120.0]]
+    real = kb.vario_estimate
+    kb.vario_estimate = ghost
+    try:
+        with warnings.catch_warnings():
+            warnings.simplefilter("ignore")
+            # a user-supplied pseudo inverse is a documented option: the kriging matrix is not under this contract
+            k = gs.krige.Ordinary(model, cpos, _arr(ctx, vals), fit_variogram=True,
+                                  pseudo_inv_type=lambda A: np.zeros(np.shape(A)))
+    finally:
+        kb.vario_estimate = real
+    ctx.ensure("estimated-once,fitted-once", len(log) == 1 and len(flog) == 1)
+    if len(log) != 1:
+        return
+    a, kw = log[0]
+    ctx.ensure("vario_estimate(latlon=True)", bool(kw.get("latlon")) is True and "direction" not in kw)
+    ctx.ensure("vario_estimate(geo_scale=model.geo_scale)", "geo_scale" in kw and float(kw["geo_scale"]) == float(gsc)
+               and float(k.model.geo_scale) == float(gsc))
+    ctx.ensure("vario_estimate(pos=lat-lon-of-the-conditions)", np.shape(a[0]) == (2, 3) and
+               bool(np.all(np.asarray(a[0], dtype=float) == np.asarray(cpos))))
+    mean_v = sum(vals) / 3
+    ctx.ensure("vario_estimate(field=conditioning-values)", ctx.eq(a[1], _arr(ctx, vals)))
+    ctx.ensure("fit_variogram(sill=data-variance)", ctx.eq(flog[0][2], sum((v - mean_v) * (v - mean_v) for v in vals) / 3))
